@@ -109,7 +109,7 @@ EXTRA = {
  "C14": " Rise/set decision on a 0.25 (0.05) degree declination grid through both 'never crosses' thresholds x 10 latitudes x 6 standard altitudes.",
  "C15": " Every year end -2000..3998 x 10 finder/target pairs x 10 query offsets from 1.5 d down to 1e-6 d around 1 January 0h; one Epoch moved by set() between queries.",
  "C16": " First instant and 1e-8 day before the end of every civil day through Epoch(jde).dow(); Epoch object histories (shared with C02).",
- "C19": " Thorough: independent TLA+ model of the tabular Islamic calendar (models/Hijri.tla, 30-year cycle table) enumerated by TLC over six 40-year windows, all 85 049 dumped states replayed; Gauss's Easter algorithm as a third formulation (models/Easter.tla), all 14 713 years enumerated by TLC and replayed.",
+ "C19": " Thorough: independent TLA+ model of the tabular Islamic calendar (models/Hijri.tla, 30-year cycle table) enumerated by TLC over six 40-year windows, all 85 049 dumped states replayed; Gauss's Easter algorithm as a third formulation (models/Easter.tla), all 14 713 years enumerated by TLC and replayed; the traditional molad / dehiyyot rules (models/Pesach.tla), all 3 000 years enumerated and replayed.",
  "C17": " Input forms incl. re-used objects, a copy whose source is re-loaded, and lists overwritten by the caller, for linear, quadratic and general fits.",
  "C18": " Histories of ONE Earth object set() through all sequences of 2-3 (4) of the 5 ellipsoids, 26 views compared with a fresh object.",
  "C20": " Further clauses: reused_arguments (caller changes an argument object in place between two calls), near_arguments (previous call with almost the same arguments), dense_domains (43 single-parameter sweeps on arithmetic grids with fractional steps, 95 313 calls), object_reset (construct / set histories of 4 classes against fresh objects), probes whose documented ValueError must be raised.",
